@@ -26,6 +26,7 @@ import (
 	"sort"
 	"strconv"
 	"strings"
+	"syscall"
 	"time"
 
 	"github.com/jech/galene/diskwriter"
@@ -52,9 +53,33 @@ type eng struct {
 	last    map[string]string // last printed state tokens
 	accum   map[int][]string  // descriptors of actions queued since the last report
 	ages    map[string]int    // group -> max-history-age (for nothing but documentation)
+	fault   bool              // run message handlers with RLIMIT_FSIZE 0: rewriting the token file fails
+}
+
+// withFault runs fn with RLIMIT_FSIZE 0: every write(2) to a regular file fails with
+// EFBIG (SIGXFSZ is ignored by the Go runtime), so token.Update cannot rewrite its file.
+func withFault(on bool, fn func()) {
+	if !on {
+		fn()
+		return
+	}
+	var old syscall.Rlimit
+	if err := syscall.Getrlimit(syscall.RLIMIT_FSIZE, &old); err != nil {
+		panic(err)
+	}
+	if err := syscall.Setrlimit(syscall.RLIMIT_FSIZE, &syscall.Rlimit{Cur: 0, Max: old.Max}); err != nil {
+		panic(err)
+	}
+	defer func() {
+		if err := syscall.Setrlimit(syscall.RLIMIT_FSIZE, &old); err != nil {
+			panic(err)
+		}
+	}()
+	fn()
 }
 
 func (e *eng) Reset() {
+	e.fault = false
 	if e.root == "" {
 		d, err := os.MkdirTemp("", "sigverif")
 		if err != nil {
@@ -299,6 +324,9 @@ func (e *eng) msgStr(o rtpconn.VerifOut, self string) string {
 			if o.Type == "usermessage" && o.Kind == "error" && o.Privileged && o.Source == "" && !knownErr[s] &&
 				strings.Contains(s, " ") {
 				v = "OTHER"
+			}
+			if o.Type == "usermessage" && o.Kind == "token" && o.Error != "" && strings.HasSuffix(s, "file too large") {
+				v = "EFBIG" // the text carries the path of the scratch directory
 			}
 			if o.Type == "chat" && o.Username != nil && *o.Username == "Server" && o.Source == "" {
 				lines := strings.Split(strings.TrimSuffix(s, "\n"), "\n")
@@ -780,16 +808,22 @@ func (e *eng) Exec(op []string) string {
 			// a parseable offer from a member would start a real negotiation
 			return "skipped"
 		}
-		st := guarded(func() string {
-			err := s.v.Handle(m)
-			if err != nil {
-				st := errStatus(err)
-				s.v.Finish(err)
-				return st
-			}
-			return "ok"
+		var st string
+		withFault(e.fault, func() {
+			st = guarded(func() string {
+				err := s.v.Handle(m)
+				if err != nil {
+					st := errStatus(err)
+					s.v.Finish(err)
+					return st
+				}
+				return "ok"
+			})
 		})
 		return e.observe(st)
+	case "fault":
+		e.fault = op[1] == "1"
+		return "ok"
 	case "a":
 		s := e.client(op[1])
 		if s == nil {
